@@ -7,7 +7,7 @@ from cgsim import gen as G, ref, peers
 from cgsim.core import fp, Skip, state_digest
 
 ID = "C11"
-QUICK = dict(worlds=16, runs=150, seconds=25)
+QUICK = dict(worlds=16, runs=150, seconds=15)
 THOROUGH = dict(worlds=256, runs=1200, seconds=30)
 RULE = ("seeded blackbox-free circuits x node n (input / internal / output / functionally constant) x endpoint "
         "subsets; distinct = canonical net + node + endpoints; non-trivial = n's function depends on >= 2 startpoints")
